@@ -784,6 +784,12 @@ func (f *Frame) execSlice(x *ssa.Slice, st *State, reach Term) Value {
 		f.vc.declareFunOnce(fn, []string{content.Sort, sInt}, ts)
 		whole := T(ts, "(%s %s %d)", fn, content.S, arr.Len())
 		f.assumeOnce(tEq(f.seqLenRaw(whole), n))
+		if f.vc.mode == ModeInt {
+			// the elements of the sequence are the elements of the array (without this the
+			// values that a variadic append adds to a value sequence are unknown)
+			f.assumeOnce(T(sBool, "(forall ((a!q %[1]s) (n!q Int) (k!q Int)) (! (=> (and (<= 0 k!q) (< k!q n!q)) (= (at.%[2]s (%[3]s a!q n!q) k!q) (select a!q k!q))) :pattern ((at.%[2]s (%[3]s a!q n!q) k!q))))",
+				content.Sort, ts, fn))
+		}
 		if x.Low == nil && x.High == nil {
 			return whole
 		}
